@@ -92,6 +92,9 @@ enum Op {
     Inc(u8, u8, u8),
     Set(u8, u8, u8),
     Rec(u8, u8, u8),
+    /// histogram.record_many(value, count): 0 = (20, 3), 1 = (5e9, 2) - above u32::MAX, which a
+    /// single `record` caps into the top bucket
+    RecMany(u8, u8, u8),
     /// gauge.increment(v) / gauge.decrement(v)
     GaugeAdd(u8, u8, u8),
     GaugeSub(u8, u8, u8),
@@ -131,6 +134,8 @@ fn ops() -> Vec<Op> {
     v.push(Op::GaugeSub(1, 1, 7));
     v.push(Op::Rec(1, 0, 20));
     v.push(Op::Rec(1, 1, 200));
+    v.push(Op::RecMany(1, 0, 0));
+    v.push(Op::RecMany(1, 1, 1));
     v.push(Op::Describe(0, 0, 0));
     v.push(Op::Describe(0, 0, 1));
     v.push(Op::Describe(1, 1, 1));
@@ -194,6 +199,19 @@ fn apply(w: &World, m: &mut Model, op: Op, emit_zero: bool) -> Option<(String, S
         Op::GaugeSub(name, lab, v) => {
             w.rec.register_gauge(&key(name as usize, lab as usize), &md()).decrement(v as f64);
             *m.gauges.entry((NAMES[name as usize].to_string(), lab)).or_insert(0.0) -= v as f64;
+            None
+        }
+        Op::RecMany(name, lab, which) => {
+            let k = Key::from_parts(hname(name), labels(lab as usize).into_iter().map(|(k, v)| Label::new(k, v)).collect::<Vec<_>>());
+            let (value, count, as_recorded) = if which == 0 { (20.0, 3usize, 20u32) } else { (5e9, 2usize, u32::MAX) };
+            let h = w.rec.register_histogram(&k, &md());
+            let r = std::panic::catch_unwind(std::panic::AssertUnwindSafe(|| h.record_many(value, count)));
+            for _ in 0..count {
+                m.hists.entry((hname(name), lab)).or_default().push(as_recorded);
+            }
+            if r.is_err() {
+                return Some(("record_many-panicked".to_string(), format!("histogram.record_many({value}, {count}) panicked")));
+            }
             None
         }
         Op::Rec(name, lab, v) => {
